@@ -9,5 +9,6 @@ CONSTANTS
   WriteFallback = FALSE
   CrashBudget = 0
   AdvBudget = 0
+  Debris <- NoDebris
 POSTCONDITION Accepted
 CHECK_DEADLOCK FALSE
